@@ -225,7 +225,12 @@ func run(p prog, seed int64) {
 				mu.Lock()
 				own, peer := stopped[end], stopped[map[string]string{"A": "B", "B": "A"}[end]]
 				mu.Unlock()
-				ev("op", "wait", "end", end, "res", "ok", "ms", ms, "ret", yn(ret), "ownstop", yn(own), "peerstop", yn(peer), "accepted", yn(tb != nil))
+				// which state the tube is left in (the state lock may be held by a stuck call: bounded)
+				state := "n/a"
+				if !ret {
+					state, _, _ = timed(time.Second, func() string { return t.VerifState() })
+				}
+				ev("op", "wait", "end", end, "res", "ok", "ms", ms, "ret", yn(ret), "ownstop", yn(own), "peerstop", yn(peer), "accepted", yn(tb != nil), "state", state)
 			case "stop":
 				mu.Lock()
 				stopped[end] = true
